@@ -440,3 +440,101 @@ class ScanOrderCheckRaises(ScanOrderCheck):
 
 
 SCAN_UNITS = [ScanOrderCheck(), ScanOrderCheckRaises()]
+
+
+# ---------------------------------------------------------------- scan_file_times: the file-reading loop
+# The loop `for fname in files` runs over a list of symbolic length, which the generator cannot iterate. It is verified
+# for FIXED file/frame-count shapes with symbolic frame times (every file read, in order, every frame of it appended,
+# num_frames == frames per file); the ordering check is verified for all lengths by the slice above.
+
+
+class TimeVar(ModelObject):
+    def __init__(self, arr):
+        self.arr = arr
+
+    def pv_getitem(self, cx, idx):
+        if isinstance(idx, slice) and idx.start is None and idx.stop is None:
+            return self.arr
+        raise Unsupported("partial read of ocean_time")
+
+    def pv_getattr(self, cx, name):
+        if name == "units":
+            return "seconds since 1970-01-01 00:00:00"
+        raise Unsupported(f"ocean_time.{name}")
+
+
+class TimeFile(ModelObject):
+    def __init__(self, arr, log, name):
+        self.arr = arr
+        log.append(name)
+
+    def pv_getattr(self, cx, name):
+        if name == "variables":
+            return {"ocean_time": TimeVar(self.arr)}
+        raise Unsupported(f"Dataset.{name}")
+
+
+class ScanReadLoop(Spec):
+    """scan_file_times, whole function, for a fixed shape: all_frames is the concatenation of the ocean_time of ALL files
+    in the order given, num_frames maps every file to its frame count, and the call is refused exactly when the
+    concatenation is not strictly increasing."""
+
+    func = "ladim.ROMS.scan_file_times"
+    properties = ("C20", "C03")
+    inline = ()
+    may_raise = ("SystemExit",)
+
+    def __init__(self, counts):
+        self.counts = tuple(counts)
+        self.name = f"ROMS.scan_file_times[whole function, files with {', '.join(map(str, counts))} frames]"
+        spec = self
+
+        def dataset(interp, fname, *a, **kw):
+            st = interp.cx.ghost.setdefault("scan_files", {})
+            return TimeFile(st["arrays"][fname], st["opened"], fname)
+
+        def num2date(interp, times, units, *a, **kw):
+            return times  # assumed: an order-preserving conversion of the time values (seconds kept as integers)
+
+        self.externals = {"netCDF4.Dataset": dataset, "cftime.num2date": num2date, "netCDF4.num2date": num2date}
+
+    def inputs(self, cx):
+        files = [f"file{k}" for k in range(len(self.counts))]
+        arrays = {f: Arr((c,), (lambda f_: lambda j: z3.Int(f"t_{f_}_{j if isinstance(j, int) else 0}"))(f), "int") for f, c in zip(files, self.counts)}
+        cx.ghost["scan_files"] = dict(arrays=arrays, opened=[])
+        return Args(files=files)
+
+    def model(self, cx, a):
+        return NotImplemented
+
+    def _concat(self, a):
+        return [z3.Int(f"t_{f}_{j}") for f, c in zip(a.files, self.counts) for j in range(c)]
+
+    def ensures(self, cx, a, result):
+        exp = self._concat(a)
+        out = [("C20: every file is opened exactly once, in the order given", cx.ghost["scan_files"]["opened"] == list(a.files))]
+        ok = isinstance(result, tuple) and len(result) == 2 and isinstance(result[0], Arr) and result[0].shape == (len(exp),)
+        out.append(("C20/C03: all_frames has one entry per frame of every file", ok))
+        if ok:
+            for k, e in enumerate(exp):
+                out.append((f"C20/C03: all_frames[{k}] == the corresponding frame time of the concatenated files", V.s_cmp("==", result[0].at(k), e)))
+            out.append(("C03: num_frames == frames per file", result[1] == dict(zip(a.files, self.counts))))
+            out.append(("C20: a normal return means the concatenated frame times are strictly increasing", z3.And(*[exp[k] < exp[k + 1] for k in range(len(exp) - 1)])))
+        return out
+
+
+class ScanReadLoopSorted(ScanReadLoop):
+    """The converse: strictly increasing frame times over all files are never refused."""
+
+    may_raise = ()
+
+    def __init__(self, counts):
+        super().__init__(counts)
+        self.name += " (sorted input)"
+
+    def requires(self, cx, a):
+        exp = self._concat(a)
+        return [("frame times strictly increasing over the concatenated files", z3.And(*[exp[k] < exp[k + 1] for k in range(len(exp) - 1)]))]
+
+
+SCAN_READ_UNITS = [ScanReadLoop((2, 1, 2)), ScanReadLoopSorted((2, 1, 2)), ScanReadLoop((1, 3))]
